@@ -286,7 +286,11 @@ func areUnknownAttributesAdded(content []byte) []string {
 	// Ignoring error because we already successfully unmarshalled before this
 	// point
 	_ = json.Unmarshal(content, &targetArtifactMap)
-	descriptor := targetArtifactMap["targetArtifact"].(map[string]interface{})
+	// encoding/json matches keys case-insensitively, so a payload that
+	// unmarshalled successfully may still lack an exact "targetArtifact" object
+	// (e.g. "TargetArtifact", or "targetArtifact": null next to it). Such keys
+	// are left in targetArtifactMap and reported as unknown attributes.
+	descriptor, _ := targetArtifactMap["targetArtifact"].(map[string]interface{})
 
 	// Explicitly remove expected keys to check if any are left over
 	delete(descriptor, "mediaType")
